@@ -26,5 +26,5 @@ func register(c *Check) { Registry[c.ID] = c }
 var Replayers = map[string]func(prop string, raw []byte) *h.Viol{}
 
 func init() {
-	register(&Check{ID: "C15", Level: "model_checking", Run: C15, QuickBudget: 60 * time.Second, ThoroughBudget: 15 * time.Minute})
+	register(&Check{ID: "C15", Level: "model_checking", Run: C15, QuickBudget: 200 * time.Second, ThoroughBudget: 15 * time.Minute})
 }
